@@ -5,6 +5,7 @@ import (
 	"encoding/json"
 	"fmt"
 	"math/rand"
+	"os"
 	"strconv"
 	"strings"
 
@@ -212,6 +213,21 @@ func checkC10(c *core.Ctx) {
 		if infra(c, conv) {
 			return
 		}
+		// the same conversion written with -o onto a file that already holds an older, longer document:
+		// what `crd write` reads from that file must be what stdout carried
+		if i%4 == 0 && conv.OK() {
+			path := c.Scratch.Path("song.yml")
+			os.WriteFile(path, bytes.Repeat([]byte("- values: [\"1\"]\n"), 3000), 0o644)
+			co := run(c, []byte(text), append(append([]string{}, args...), "-o", path)...)
+			c.Eval(1)
+			if infra(c, co) {
+				return
+			}
+			if got := readFileOrNil(path); !co.OK() || !bytes.Equal(got, conv.Stdout) {
+				c.Violate("pipeline", i, "pipeline:conv-o-existing-file", fmt.Sprintf("text conv -o onto an existing longer file leaves %d bytes, stdout carries %d (ok=%v): %s", len(got), len(conv.Stdout), co.OK(), firstLineDiff(conv.Stdout, got)), mergeMaps(det, map[string]any{"run": obs(co)}))
+				return
+			}
+		}
 		if a := abnormal(conv); a != "" || !conv.OK() {
 			c.Violate("pipeline", i, "pipeline:conv-failed", "text conv refuses a text rendered from the model "+a, mergeMaps(det, map[string]any{"run": obs(conv)}))
 			return
@@ -260,6 +276,19 @@ func checkC10(c *core.Ctx) {
 		if a := abnormal(wc); a != "" || !wc.OK() {
 			c.Violate("pipeline", i, "pipeline:write-conv-refuses", "crd write conv refuses what text conv printed "+a, mergeMaps(det, map[string]any{"run": obs(wc)}))
 			return
+		}
+		// in place: the annotated document replaces the file it was read from
+		if i%4 == 1 {
+			path := c.Scratch.File("inplace.yml", conv.Stdout)
+			ip := run(c, nil, append(append([]string{"write", "conv", "-c", "cmt"}, wargs...), path, "-o", path)...)
+			c.Eval(1)
+			if infra(c, ip) {
+				return
+			}
+			if got := readFileOrNil(path); !ip.OK() || !bytes.Equal(got, wc.Stdout) {
+				c.Violate("pipeline", i, "pipeline:conv-in-place", fmt.Sprintf("write conv -c cmt FILE -o FILE (in place) leaves %d bytes, the conversion printed to stdout has %d (ok=%v)", len(got), len(wc.Stdout), ip.OK()), mergeMaps(det, map[string]any{"run": obs(ip)}))
+				return
+			}
 		}
 		wc2 := run(c, wc.Stdout, "write", "conv", "-c", "cmt")
 		w2 := run(c, wc.Stdout, "write")
